@@ -71,6 +71,9 @@ type Plan struct {
 	Faults    []simcf.Fault `json:"faults,omitempty"`
 	LatencyMs []int         `json:"latency_ms,omitempty"`
 	Enum      *EnumSpec     `json:"enum,omitempty"`
+	// ReuseBuf: the caller keeps its config list in one buffer that it rewrites
+	// in place before every publish.
+	ReuseBuf bool `json:"reuse_buf,omitempty"`
 }
 
 func (p *Plan) clone() *Plan {
